@@ -176,46 +176,62 @@ Theorem C02_fun2core_correct_partial :
 Proof. exact fun2core_correct_partial_lemma. Qed.
 Print Assumptions C02_fun2core_correct_partial.
 
-(* ---------- semantic preservation for the language WITHOUT CODATA (fragment 2) ----------
+(* ---------- semantic preservation, fragment 2: data AND codata ----------
    A strictly larger fragment than C02_fun2core_correct_partial (which stays as it is): ANY number of
    definitions, each of them in the fragment, calls between them in tail and non-tail position
    (a non-tail call creates a mu~ continuation, a tail call passes the return covariable), recursion,
    conditionals and case in NON-TAIL position (the continuation is lifted to a definition
    share_<f>_<n> and called with its free variables), let with an arbitrary bound term, data types
-   (constructors, case; clauses bind variables), labels and goto, labels passed to consumer parameters.
+   (constructors, case; clauses bind variables), labels and goto, labels passed to consumer parameters,
+   and CODATA: `new { .. }` (closures, corecursion), destructor calls, by-name `let` and by-name
+   arguments (thunks re-run at every destructor call that reaches them).
 
-   The fragment, spelled out ([frag p t], Proof/Fun2CoreInv.v): all term forms EXCEPT
-     - `new { .. }` and destructor calls `t.d(args)`                       (codata),
-     - a `let` whose variable has a codata type, a call/constructor argument of codata type, a case
-       scrutinee of codata type, a label of codata type                      (by-name evaluation),
+   The fragment, spelled out ([frag p t], Model/Fun2CoreGuard.v): all 15 term forms, EXCEPT
      - a call whose target is `main`                                        (finding call-to-main),
-     - a constructor argument that is a covariable and a case clause with a consumer parameter
-       (continuations stored in data), a call whose argument kinds differ from the callee's parameters.
-   [prog_guard p] (Proof/Fun2CoreProg.v): every definition d satisfies
-     frag p (fdbody d)                       the fragment,
+     - a destructor call in which BOTH the scrutinee and some argument need evaluation (allowed:
+       scrutinee a variable or a `new` with arbitrary data arguments; any scrutinee - calls, chained
+       destructor calls, lets, .. - with arguments that are variables or literals): there the
+       translation evaluates the scrutinee BEFORE the arguments, the source semantics after - the
+       property's precondition "effects sequenced unambiguously" is about exactly this,
+     - continuations or by-name values stored in constructor fields or passed to destructors, case
+       clauses / new clauses with consumer or codata-typed parameters, calls whose argument kinds
+       (chirality, data/codata) differ from the callee's parameter kinds.
+   [kd p t] (the kind discipline, a consequence of typing): operands, conditions, printed values,
+   scrutinees of case and constructor arguments are data; a let-bound term has the kind of its variable;
+   branches / let bodies / clause bodies have the kind of the whole term; a `new` is codata and each of
+   its clause bodies has the kind its destructor returns ([dkind]); EXCLUDED by it: conditionals, case
+   and labels of CODATA type (their continuation would be shared at a codata type: the PDelay mechanism
+   of the Core machine), goto targets and consumer arguments of codata type.
+   [prog_guard p] (Model/Fun2CoreGuard.v): every definition d satisfies
+     frag p (fdbody d), kd p (fdbody d)      the fragment and the kind discipline, the body has the kind of
+                                             the declared return type,
      ws (compile_ctx (fdctx d)) (fdbody d)   well-scoped: every variable/covariable occurrence is in scope
                                              of a parameter or binder of the SAME kind and type
                                              annotation (what the type checker guarantees),
      nocap (fdbody d)                        the CAPTURE GUARD: wherever the translation places a
                                              continuation built from a term u under the binders of a
-                                             term t (let-bound term / case scrutinee / labelled
-                                             term), the binders of t are distinct from all names of u;
-                                             implied by the Barendregt condition (theorem below),
-     and the body of main has a data type.
+                                             term t (let-bound term / case or destructor scrutinee /
+                                             labelled term), the binders of t are distinct from all
+                                             names of u; implied by the Barendregt condition (below),
+     and main has data-typed producer parameters and a data result.
    Conclusion: EVERY source run that ends in a final outcome ([final]: normal exit or undefined
    arithmetic; stuck and out-of-fuel runs are not compared) is reproduced, output and outcome, by the
    Core machine on the model's translation.
 
    Method (Proof/Fun2CoreRel.v .. Fun2CoreFLh.v): a step-indexed forward simulation between CEK
-   configurations and Core machine configurations; values, environments and continuations are related
-   by a relation designed for the full language (its clauses for closures and thunks are not used by any
-   term form of the fragment).  WHERE THE GUARD IS USED: only in the cases that put a continuation under
-   a binder - `let x = t; u` (lemma fl_let: the continuation of u is placed under x, and the
-   continuation mu~x.[[u]] of t under the binders of t), `case` (fl_case: the continuation under the
-   clause parameters; the case consumer under the binders of the scrutinee), `label`/`goto` - as the
-   disjointness of those binders from the free names of the continuation.  Without it the statement is
-   false: capture_witness satisfies frag and ws but not nocap (C02_guard_rejects_capture_witness).
-   MISSING for the full property: codata (new, destructors, by-name bindings). *)
+   configurations and Core machine configurations.  Values: integers, constructor values pointwise,
+   closures and thunks behaviourally (related under every destructor: [Co]); continuations by the KIND of
+   values they expect ([Kk n c]); environments pointwise on the free variables of the statement being
+   run; the syntactic continuation carried by the translation means a source continuation in EVERY
+   environment that agrees on its typed free variables ([KS]) - which is what makes the lifted
+   definitions share_<f>_<n> (environment = parameters only) and by-name thunks work.  WHERE THE GUARD
+   IS USED: only in the cases that put a continuation under a binder - `let x = t; u` (lemma fl_let),
+   `case` (fl_case), destructor calls with a non-atomic scrutinee (fl_dtor_general: the destructor
+   consumer with its arguments is placed under the binders of the scrutinee - capture4.sc),
+   `label`/`goto` - as the disjointness of those binders from the free names of the continuation.
+   Without it the statement is false: capture_witness satisfies frag, kd and ws but not nocap
+   (C02_guard_rejects_capture_witness).
+   NOT COVERED: the exclusions listed above (no admits: frag/kd are false on them). *)
 Theorem C02_fun2core_correct_fragment2 :
   forall (p : fcprog) (c : cprog) (args : list Z) (n : nat) (o : obs),
     compile_prog p = Ok c ->
@@ -283,10 +299,19 @@ Example C02_fragment2_example_labels :
   run_core 2000 (compiled_or_empty ex_labels) [5%Z] = ([(true, 1042%Z); (true, 1006%Z); (true, 10%Z)], OExit 0%Z).
 Proof. exact ex_labels_ok. Qed.
 
+(* 5. codata: a corecursive stream (`new`), destructors on variables, chained destructors, a call as
+   scrutinee, a by-name let, a by-name argument *)
+Example C02_fragment2_example_codata :
+  prog_guard ex_codata = true /\ NoDup (map fdname (fcpdefs ex_codata)) /\
+  compile_prog ex_codata = Ok (compiled_or_empty ex_codata) /\
+  run_fun 1000 ex_codata [10%Z] = ([(true, 13%Z); (true, 10%Z); (true, 12%Z); (true, 7%Z)], OExit 0%Z) /\
+  run_core 2000 (compiled_or_empty ex_codata) [10%Z] = ([(true, 13%Z); (true, 10%Z); (true, 12%Z); (true, 7%Z)], OExit 0%Z).
+Proof. exact ex_codata_ok. Qed.
+
 (* the guard is necessary: the capture witness (C02_fun2core_capture_refuted) is in the fragment and
    well-scoped - what it violates is exactly the capture guard; the call-to-main witness violates frag *)
 Theorem C02_guard_rejects_capture_witness :
-  forallb (fun d => frag capture_witness (fdbody d) && ws (compile_ctx (fdctx d)) (fdbody d)) (fcpdefs capture_witness) = true /\
+  forallb (fun d => frag capture_witness (fdbody d) && kd capture_witness (fdbody d) && ws (compile_ctx (fdctx d)) (fdbody d)) (fcpdefs capture_witness) = true /\
   existsb (fun d => negb (nocap (fdbody d))) (fcpdefs capture_witness) = true /\
   prog_guard capture_witness = false /\ prog_guard call_main_witness = false.
 Proof. vm_compute. repeat split; reflexivity. Qed.
